@@ -1086,3 +1086,172 @@ def run_budget(repo, tier='quick', rule='E9r'):
                 problems.append((f'reuse after {fdesc}', f'options object reused after {fdesc}: the program "{desc}" starts {c_fresh} statements, but under the limit {c_fresh} it ends with '
                                                          f'{r4[0]} {r4[1]!r} (count {r4[4].d.get("statementCount")})'[:600]))
     return n, problems
+
+
+# ------------------------------------------------------------------------------------------------ hand-built jump-level models (C08)
+class ModelRef:
+    """the documented statement semantics on schema models: statements in order; a jump whose optional condition is truthy continues after the FIRST label of that name in the
+    SAME statement list, else "Unknown jump label"; return ends the list's invocation; a function statement binds a global function (again, when executed again / under the same
+    name); expressions: number, string, variable, binary + - * == < and calls of script functions, systemLog, arrayNew, arrayPush"""
+
+    def __init__(self, model):
+        self.model = model
+        self.globals = {}
+        self.logs = []
+        self.count = 0
+
+    def ev(self, e, local):
+        (k, v), = e.items()
+        if k == 'number':
+            return float(v)
+        if k == 'string':
+            return v
+        if k == 'variable':
+            if v in ('null', 'true', 'false'):
+                return {'null': None, 'true': True, 'false': False}[v]
+            if local is not None and v in local:
+                return local[v]
+            return self.globals.get(v)
+        if k == 'group':
+            return self.ev(v, local)
+        if k == 'unary':
+            x = self.ev(v['expr'], local)
+            return (not truthy(x)) if v['op'] == '!' else (-x if isinstance(x, float) else None)
+        if k == 'binary':
+            l, r = self.ev(v['left'], local), self.ev(v['right'], local)
+            op = v['op']
+            if op == '+' and (isinstance(l, str) or isinstance(r, str)):
+                return vstr(l) + vstr(r)
+            if isinstance(l, float) and isinstance(r, float):
+                return {'+': l + r, '-': l - r, '*': l * r, '==': l == r, '<': l < r, '>': l > r}[op]
+            raise NotEvaluable(f'operator {op}')
+        if k == 'function':
+            name = v['name']
+            args = [self.ev(a, local) for a in v.get('args', [])]
+            f = local.get(name) if local is not None and name in local else self.globals.get(name)
+            if isinstance(f, dict):
+                params = f.get('args') or []
+                loc = {p: (args[i] if i < len(args) else None) for i, p in enumerate(params)}
+                return self.run_list(f['statements'], loc)
+            if name == 'systemLog':
+                self.logs.append(vstr(args[0] if args else None))
+                return None
+            if name == 'arrayNew':
+                return list(args)
+            if name == 'arrayPush':
+                args[0].extend(args[1:])
+                return args[0]
+            raise NotEvaluable(f'call {name}')
+        raise NotEvaluable(k)
+
+    def run_list(self, stmts, local):
+        ix = 0
+        while ix < len(stmts):
+            self.count += 1
+            if self.count > 2000:
+                raise BareRuntimeError('statement limit')
+            (k, v), = stmts[ix].items()
+            if k == 'expr':
+                val = self.ev(v['expr'], local)
+                if 'name' in v:
+                    (local if local is not None else self.globals)[v['name']] = val
+            elif k == 'jump':
+                if 'expr' not in v or truthy(self.ev(v['expr'], local)):
+                    tgt = next((i for i, s in enumerate(stmts) if s.get('label') == v['label']), None)
+                    if tgt is None:
+                        raise BareRuntimeError(f'Unknown jump label "{v["label"]}"')
+                    ix = tgt
+            elif k == 'return':
+                return self.ev(v['expr'], local) if 'expr' in v else None
+            elif k == 'function':
+                self.globals[v['name']] = v
+            elif k != 'label':
+                raise NotEvaluable(k)
+            ix += 1
+        return None
+
+    def run(self):
+        try:
+            return ('value', self.run_list(self.model['statements'], None), self.logs, self.count)
+        except BareRuntimeError as exc:
+            return ('error', str(exc), self.logs, self.count)
+
+
+def _L(text):
+    return {'expr': {'expr': {'function': {'name': 'systemLog', 'args': [{'string': text}]}}}}
+
+
+def _C(name, target=None, *args):
+    d = {'expr': {'function': {'name': name, 'args': [{'number': a} if isinstance(a, (int, float)) else a for a in args]}}}
+    if target:
+        d['name'] = target
+    return {'expr': d}
+
+
+def _F(name, stmts, args=None):
+    d = {'name': name, 'statements': stmts}
+    if args:
+        d['args'] = args
+    return {'function': d}
+
+
+V = lambda n: {'variable': n}
+N = lambda x: {'number': x}
+J = lambda label, expr=None: {'jump': dict({'label': label}, **({'expr': expr} if expr is not None else {}))}
+LB = lambda name: {'label': name}
+RET = lambda e=None: {'return': ({'expr': e} if e is not None else {})}
+
+JUMP_MODELS = {
+    'a function name bound again: the later body has its label one statement earlier': {'statements': [
+        _F('f', [J('L'), _L('f1: skipped'), LB('L'), _L('f1: after L'), RET(N(1))]), _C('f', 'r1'),
+        _F('f', [J('L'), LB('L'), _L('f2: after L'), RET(N(2))]), _C('f', 'r2'),
+        RET({'binary': {'op': '+', 'left': {'binary': {'op': '*', 'left': V('r1'), 'right': N(10)}}, 'right': V('r2')}})]},
+    'a function name bound again: the later body lacks the label': {'statements': [
+        _F('f', [J('L'), LB('L'), _L('f1'), RET(N(1))]), _C('f', 'r1'),
+        _F('f', [J('L'), _L('f2: not reached'), RET(N(2))]), _C('f', 'r2'), RET(V('r2'))]},
+    'two functions with the same label names, called alternately, and the same labels at top level': {'statements': [
+        _F('a', [J('skip', V('p')), _L('a: not skipped'), LB('skip'), LB('end'), RET(N(1))], ['p']),
+        _F('b', [LB('end'), J('skip'), _L('b: not reached'), LB('skip'), RET(N(2))]),
+        _C('a', None, 1), _C('b'), _C('a', None, 0), _C('b'), J('skip'), _L('top: not reached'), LB('skip'), _C('a', None, 1), LB('end'), RET(N(3))]},
+    'a loop over a label inside a function called from a loop over the same label name': {'statements': [
+        _F('inner', [{'expr': {'name': 'k', 'expr': N(0)}}, LB('loop'), {'expr': {'name': 'k', 'expr': {'binary': {'op': '+', 'left': V('k'), 'right': N(1)}}}},
+                     J('loop', {'binary': {'op': '<', 'left': V('k'), 'right': V('n')}}), RET(V('k'))], ['n']),
+        {'expr': {'name': 'i', 'expr': N(0)}}, {'expr': {'name': 't', 'expr': {'function': {'name': 'arrayNew'}}}}, LB('loop'),
+        {'expr': {'name': 'i', 'expr': {'binary': {'op': '+', 'left': V('i'), 'right': N(1)}}}},
+        {'expr': {'expr': {'function': {'name': 'arrayPush', 'args': [V('t'), {'function': {'name': 'inner', 'args': [V('i')]}}]}}}},
+        J('loop', {'binary': {'op': '<', 'left': V('i'), 'right': N(3)}}), RET(V('t'))]},
+    'a jump out of a function body to a label of the caller': {'statements': [
+        _F('f', [J('outer'), RET(N(1))]), LB('outer'), _L('top'), _C('f', 'r'), RET(V('r'))]},
+}
+
+
+def run_models(repo, rule='E9r'):
+    """execute_script evaluated on hand-built jump-level models (twice each: the model must be unchanged and the second run identical) -> (n, problems [(desc, message)])"""
+    subj = Subject(repo, rule)
+    problems, n = [], 0
+    for desc, model in JUMP_MODELS.items():
+        ref = ModelRef(_copy(model)).run()
+        prev = None
+        am = to_abs(_copy(model))
+        for attempt in (1, 2):
+            n += 1
+            subj.models['\0model'] = ('model', am)
+            try:
+                sub = subj.run('\0model', {}, max_statements=0)
+            except Unrecognised as exc:
+                raise Unrecognised(exc.rule or rule, f'model "{desc}": {exc.what}', exc.where)
+            cnt = sub[4].d.get('statementCount') if sub[4] is not None else None
+            got = (sub[0], sub[1], sub[2], cnt)
+            if sub[0] == 'host-exception':
+                problems.append((desc, f'model "{desc}": execute_script raises the host exception {sub[1]}'))
+                break
+            ok = got[0] == ref[0] and got[2] == ref[2] and got[3] == ref[3] and (equal(plain(ref[1]), got[1]) if ref[0] == 'value' else (isinstance(got[1], str) and ref[1] in got[1]))
+            if not ok:
+                problems.append((desc, f'model "{desc}" (run {attempt}): ends with {got[0]} {got[1]!r}, logs {got[2]!r}, {got[3]} statements; the documented statement semantics give '
+                                       f'{ref[0]} {plain(ref[1])!r}, logs {ref[2]!r}, {ref[3]} statements'[:700]))
+                break
+            if not equal(plain(am), model):
+                problems.append((desc, f'model "{desc}": execution modified the model'))
+                break
+            prev = got
+    return n, problems
